@@ -1,4 +1,5 @@
 import Infretis.Lemmas.Template
+import Infretis.Lemmas.TemplateSubst
 /-!
 # C19 — configuration, trajectory and input-template codecs are lossless
 
@@ -210,23 +211,41 @@ theorem lammps_apply_without_vars (s : Settings) (t : Str) (hnd : (keys s).Nodup
 example : writeForRun [("infretis_x".toList, "5".toList)] "variable a equal 5\nrun 1\n".toList
     = { written := ["variable a equal 5\n".toList, "run 1\n".toList], err := some .value } := by decide
 
-/-
-**edit_idempotent (LAMMPS), first half** — full statement, NOT provable of the code as it is:
+/-! **edit_idempotent (LAMMPS), first half.**  The full statement
 
-    lammps_no_var_remains : (writeForRun s t).err = none →
-        ∀ l ∈ (writeForRun s t).written, ∀ k ∈ keys s, k ∉ splitWS l
+    lammps_no_var_remains : ∀ l ∈ (writeForRun s t).written, ∀ k ∈ keys s, k ∉ splitWS l
 
-A value may itself contain (or, glued to neighbouring characters, form) a variable name; the
-tokens of a line are computed once, before the replacements, so such a variable is not
-substituted (`lammps_no_var_remains_counterexample`).  Under the guard the tie uses (no key is
-a substring of a value or of a longer template token) the statement is checked on the real code
-by the harness but is not proved here (it needs a theory of `str.replace` on token
-boundaries); `lammps_apply_without_vars` takes the conclusion as its hypothesis instead.
--/
+is FALSE of the code as it is: a value may itself contain a variable name, and the tokens of a
+line are computed once, before the replacements, so such a variable is not substituted
+(`lammps_no_var_remains_counterexample`).  It holds under the guards
+  G1  no value contains a variable of `s` as a substring,
+  G2  a template token that contains a variable as a substring is that variable
+(`lammps_no_var_remains_partial`; the proof is the token-boundary theory of `str.replace` in
+`Lemmas/TemplateSubst.lean`). -/
+
 theorem lammps_no_var_remains_counterexample :
     ∃ (s : Settings) (t : Str), (keys s).Nodup ∧ (writeForRun s t).err = none ∧
       ∃ l ∈ (writeForRun s t).written, ∃ k ∈ keys s, k ∈ splitWS l :=
   ⟨[("x".toList, "y".toList), ("y".toList, "1".toList)], "x\ny\n".toList, by decide, by decide,
    "y\n".toList, by decide, "y".toList, by decide, by decide⟩
+
+/-- after the edit no variable of `s` is a token of any written line (also of the lines written
+    before a KeyError), for values free of variable names (G1) and templates in which variables
+    occur only as whole tokens (G2) -/
+theorem lammps_no_var_remains_partial (s : Settings) (t : Str) (hnd : (keys s).Nodup)
+    (G1 : ∀ kv ∈ s, ∀ k ∈ keys s, ¬ k <:+: kv.2)
+    (G2 : ∀ l ∈ linesKeep t, ∀ tok ∈ splitWS l, ∀ k ∈ keys s, k <:+: tok → tok = k) :
+    ∀ l ∈ (writeForRun s t).written, ∀ k ∈ keys s, k ∉ splitWS l := by
+  intro l hl
+  obtain ⟨-, ⟨j, _, hw⟩, -⟩ := lammps_edit_exact s t hnd
+  rw [hw] at hl
+  obtain ⟨l0, hl0, rfl⟩ := List.mem_map.1 hl
+  exact substOf_no_var s l0 G1 (G2 l0 (List.mem_of_mem_take hl0))
+
+example :
+    let s : Settings := [("infretis_a".toList, "1.5".toList), ("infretis_b".toList, "/tmp/x y".toList)]
+    let t : Str := "variable a index infretis_a # c\nrun infretis_b infretis_b\n".toList
+    (keys s).Nodup ∧ (writeForRun s t).written =
+      ["variable a index 1.5 # c\n".toList, "run /tmp/x y /tmp/x y\n".toList] := by decide
 
 end Infretis.C19
